@@ -6,6 +6,7 @@ CONSTANTS
   ShiftAbs = {0, 1, 5, 7, 11, 12, 13, 24}
   JLens = {0, 1, 6, 11, 12, 13, 23}
   JBoth = FALSE
+VIEW View
 INVARIANT InvWellFormed
 INVARIANT InvContains
 INVARIANT InvContainsInterval
